@@ -25,6 +25,7 @@ func init() {
 				clRefreshOnlyOnVisible(c)
 				clVisitorBoundary(c)
 				clSkiplistNextAdvancesOnce(c)
+				clFindPathRecordsEachLevel(c)
 			})
 		},
 	})
